@@ -47,6 +47,15 @@ caller's task-level `ignore_error` suppresses an exit status coming back from a 
 too) and (ii) the failing dependency is the one whose error the errgroup kept (`depsDone r`
 may report any failing member; siblings see a cancelled context and may fail with `ctx`
 instead).  Dedup waiters are no longer an exception.
+
+Which statements say what (audit, session 3).  `C03_propagates_cmd`, `_call_step`, `_deps_step`, `C03_ignore_exact_*`,
+`C03_status_own / _callee / _dep / _chain`, `C03_outcome_*` are statements about the FUNCTIONS the acceptor applies
+between two labels (`afterCmd`, `stopDeps`, `wrapFor`): they say what the model computes, level by level; that the real
+executor computes the same is the acceptance of its logs.  Trace-level (every reachable configuration / every accepted
+log): `C03_no_later_cmd(_all)`, `C03_no_later_cmd_caller`, `C03_no_cmd_dependent`, `C03_result_after_cmd_failure`,
+`C03_callRes_is_callee_result`, `C03_status_full`, `C03_waiter_as_executor`, `C03_no_double_wrap`,
+`C03_statusMon_sound`.  Not proved: one trace-level statement for a failure at ANY depth below a top-level call
+(`C03_status_chain` is the function-level form; the trace form needs the side conditions listed above).
 -/
 namespace Props.C03
 open TaskModel.Sched.S2
